@@ -292,6 +292,40 @@ def run(ctx):
                     ctx.ok("c01.exit", key, "exit(%s)" % k["v"], f2.loc(t2.get("ln")))
                 else:
                     ctx.violation("c01.exit", key, "process::exit with a zero or non-constant status on a failure path", f2.loc(t2.get("ln")))
+    # D7: no exit of the tool's own code hangs on a question put to the file system.  Which files a project needs is the library's business
+    # (collect_hulc_data; `c01.optional` keeps the auxiliary ones optional there): an exit of the binary that is control-dependent on
+    # exists()/is_file()/metadata().. makes the tool fail on directories the library converts.
+    FSQ = {"exists", "try_exists", "is_file", "is_dir", "metadata", "symlink_metadata", "read_dir", "open", "canonicalize", "read_to_string", "read"}
+    OPTIONAL_FILES = ("KyGananciasSolares.txt", "NewBDL_O.tbl")      # what find_kyg / find_tbl look for (hulc2model/src/lib.rs); optional by `c01.optional`
+    import json
+    ngate = 0
+    for fid in seen:
+        f2 = prog.fns[fid]
+        if f2.crate != "hulc2model" or f2.target_kind != "bin":
+            continue
+        sc2 = Scope(prog, f2)
+        for b, t2 in f2.body.calls():
+            if not (callee_name(t2) or "").endswith("process::exit"):
+                continue
+            ngate += 1
+            key = "c01.fsgate|%s|%d" % (prog.display(f2), ngate)
+            hit = None
+            for (_, d_, n_, tk_) in sc2.own_conditions(b):
+                for x in walk(n_):
+                    if x[0] == "call" and short_callee(x[1]) in FSQ and ("path" in x[1].lower() or "fs::" in x[1]):
+                        hit = (short_callee(x[1]), show(strip(n_))[:90])
+            if hit and "join(" not in hit[1]:
+                # the question is about the directory argument itself: a directory that does not exist holds no project, the library fails on it too
+                ctx.ok("c01.fsgate", key, "%s() on the directory argument itself decides this exit (a missing directory holds no project)" % hit[0], f2.loc(t2.get("ln")))
+            elif hit and not any(nm_.lower() in json.dumps(f2.raw).lower() for nm_ in OPTIONAL_FILES):
+                raise AnalysisError("an exit of %s depends on %s() of a file inside the project directory (%s): whether the library needs that file is not "
+                                    "something this rule reads" % (prog.display(f2), hit[0], hit[1]))
+            elif hit:
+                ctx.violation("c01.fsgate", key, "this exit is taken or not depending on %s() (%s): the tool refuses directories on its own account, whatever the "
+                              "library would make of them (the auxiliary files are optional)" % hit, f2.loc(t2.get("ln")))
+            else:
+                ctx.ok("c01.fsgate", key, "no file-system query among the conditions that lead to this exit", f2.loc(t2.get("ln")))
+    ctx.floor("c01.fsgate", "exit sites of the tool examined", ngate, 1)
     # main forwards cli_main's Result
     mb = main.body
     fw = False
